@@ -933,7 +933,7 @@ func (s *sim) followUps(idx int, st Step, okT []string, outName string) string {
 			return "watchdog: follow-up diff timed out"
 		}
 		if res.Exit != 0 || strings.TrimSpace(res.Stdout) != "" {
-			s.violate("C18", "R3", "diff-after-gen/reports-difference", "exit 0, empty stdout", fmt.Sprintf("exit %d stdout %q", res.Exit, firstLines(res.Stdout, 4)), st.String())
+			s.violate("C18", "R3", "diff-after-gen/reports-difference", "exit 0, empty stdout", fmt.Sprintf("exit %d stdout %q", res.Exit, firstLines(s.w.Scrub(res.Stdout), 4)), st.String())
 		} else {
 			e.Stats.Counts.Add("diff_after_gen_clean", 1)
 		}
